@@ -5,6 +5,7 @@ package main
 import (
 	"go/ast"
 	"go/types"
+	"sort"
 	"strings"
 )
 
@@ -67,17 +68,31 @@ func (c *Check) skeleton(name string, keep ...string) *PG {
 		return nil
 	}
 	var ni []string
-	for _, cal := range c.P.directCallees(fs) {
-		k := false
+	isKept := func(cal string) bool {
 		for _, x := range keep {
 			if x == cal {
-				k = true
+				return true
 			}
 		}
-		if !k {
-			ni = append(ni, cal)
+		return false
+	}
+	seen := map[string]bool{}
+	addCallees := func(f *FuncSrc) {
+		for _, cal := range c.P.directCallees(f) {
+			if !isKept(cal) && !seen[cal] {
+				seen[cal] = true
+				ni = append(ni, cal)
+			}
 		}
 	}
+	addCallees(fs)
+	// the callees of a kept (inlined) helper stay opaque as well
+	for _, k := range keep {
+		if kf := c.P.fn(k); kf != nil {
+			addCallees(kf)
+		}
+	}
+	sort.Strings(ni)
 	return c.pgOfNI(name, ni...)
 }
 
